@@ -63,6 +63,7 @@ void __verif_unprotect(const void* p, unsigned long n) {
 }
 void __verif_note(const char*) {}
 void __verif_havoc_int_range(long long, long long) {}
+void __verif_assert_env(bool, const char*) {}
 void __verif_env_input_f(double) {}
 void __verif_env_input(long long) {}
 void harness();
